@@ -116,8 +116,27 @@ let string_of_n (v : n) : string =
     List.iter (fun d -> Buffer.add_string digits (string_of_int d)) !out;
     Buffer.contents digits
 
+let shared_needle : n list ref = ref []
+
 let run_case op kv : string * string =
   match op with
+  | "sharedneedle" -> shared_needle := bytes kv "x"; ("#", "-")
+  | "sfind" | "srfind" | "siter" ->
+    let x = !shared_needle and h = bytes kv "h" in
+    let ar = arch_of (get kv "cpu") in
+    if op = "sfind" then
+      (match finder_new PAuto default_rank ar x with
+       | (Ok f, _) -> let (r, _) = finder_find ar f O h in (fmt_res fmt_opt_nat r, "-")
+       | (Panic p, _) -> ("Panic:" ^ fmt_panic p, "-"))
+    else if op = "srfind" then
+      (match rfinder_new x with
+       | (Ok f, _) -> let (r, _) = rfinder_rfind ar f O h in (fmt_res fmt_opt_nat r, "-")
+       | (Panic p, _) -> ("Panic:" ^ fmt_panic p, "-"))
+    else
+      (match finder_new PAuto default_rank ar x with
+       | (Ok f, _) -> let (r, _) = fiter_run ar f O h (nat_of_int (num kv "k")) fiter_new in
+         (fmt_res (fun outs -> String.concat ";" (List.map (fun (o, _) -> fmt_opt_nat o) outs)) r, "-")
+       | (Panic p, _) -> ("Panic:" ^ fmt_panic p, "-"))
   | "iseq" | "ispre" | "issuf" ->
     let x = bytes kv "x" and y = bytes kv "y" in
     let (r, t) = (match op with
